@@ -54,6 +54,19 @@ static void finish(int stopped)
 	if (stopped) pb_puts(";stopped"); else { snprintf(num, sizeof(num), ";%d", optind); pb_puts(num); }
 }
 
+/* Start of a parse.  getopt.h: the state is re-initialised on the first call "after optreset is set
+ * to a nonzero value" - any non-zero value (chosen by the case text), and nothing else has to be
+ * prepared by the caller: optind and optarg are left with junk from "earlier use". */
+static unsigned case_h;
+static const char stale_optarg[] = "stale-optarg";
+static void start_parse(void)
+{
+	static const int nz[4] = { 1, 2, -1, 0x100 };
+	optind = 4242 + (int)(case_h & 0xff);
+	optarg = stale_optarg;
+	optreset = nz[(case_h >> 9) & 3];
+}
+
 static char ** mkargv(char ** tok, int argc, size_t * total)
 {
 	char ** argv = keep(malloc((size_t)(argc + 1) * sizeof(char *)));
@@ -91,7 +104,7 @@ static int run_api(char ** tok, int n)
 	argv = mkargv(&tok[3 + nslots + 1], argc, &total);
 	cap = total + (size_t)argc + 8;
 
-	optreset = 1;
+	start_parse();
 	ch = getopt(argc, argv);
 	if (ch != GETOPT_DUMMY) abort();        /* start: tables are only built on the dummy pass */
 	getopt_setrange((size_t)nslots);
@@ -353,7 +366,7 @@ static int run_sw(char ** tok, int n)
 	if (n != 3 + argc) return -1;
 	if (k < 0 || k >= NLOOPS) return -1;
 	argv = mkargv(&tok[3], argc, &total);
-	optreset = 1;
+	start_parse();
 	loops[k](argc, argv, stop, total + (size_t)argc + 8);
 	return 0;
 }
@@ -368,8 +381,9 @@ int main(void)
 	sigaction(SIGABRT, &sa, NULL);
 	opterr = 0;                             /* no warnings on stderr; does not affect results */
 	while ((line = drv_getline()) != NULL) {
-		int n = drv_split(line, tok, MAXTOK);
-		int i = 0, firstp = 1;
+		int n, i = 0, firstp = 1;
+		case_h = drv_case_hash(line);
+		n = drv_split(line, tok, MAXTOK);
 		while (i <= n) {
 			int j = i;
 			volatile int rc = 0;
